@@ -962,7 +962,7 @@ Definition eof_ok (s : cst) : Prop := c_pc s = PDone -> c_buf s = [] /\ c_closed
 Lemma cstep_eof_ok s e : eof_ok s -> eof_ok (cstep s e).
 Proof.
   unfold eof_ok. intros Q. destruct e as [p| |n]; cbn [cstep].
-  - destruct (c_closed s) eqn:Ec; [exact Q|]. cbn [c_pc c_buf c_closed]. intros H.
+  - destruct (c_closed s) eqn:Ec; [intros H; split; [apply Q, H|exact Ec]|]. cbn [c_pc c_buf c_closed]. intros H.
     destruct (Q H) as [_ H2]. discriminate H2.
   - cbn [c_pc c_buf c_closed]. intros H. split; [apply Q, H|reflexivity].
   - destruct (c_pc s) eqn:Ep.
@@ -1016,3 +1016,177 @@ Qed.
 Lemma closed_lets_reader_through s n :
   c_pc s = PWait -> c_closed s = true -> c_pc (cstep s (EReader n)) = PIdle.
 Proof. intros Hp Hc. cbn [cstep]. rewrite Hp, Hc. destruct (c_tok s); reflexivity. Qed.
+
+(* ================================================================== *)
+(* F. inside the quantifier (TCP/UDP addresses with IPs of at most 16 bytes, ports
+      0..65535, payloads of at most 65000 bytes) the real wire is the identity, so a whole
+      run over the real codec is the run over a faithful wire *)
+Definition q_addr (a : addr) : Prop :=
+  match a with
+  | ATcp ip port | AUdp ip port => zlen ip <= 16 /\ 0 <= port < 65536
+  | ANil => False
+  end.
+
+Definition q_msg (m : msg) : Prop :=
+  match m with
+  | MHello l r | MEof l r => q_addr l /\ q_addr r
+  | MData l r p | MUdp l r p => q_addr l /\ q_addr r /\ zlen p <= 65000
+  | MPing => True
+  | MHandshake _ _ _ _ _ | MHsResp _ => False
+  end.
+
+Lemma q_vd_addr a : q_addr a -> vd_addr a /\ zlen (ser_addr a) <= 21.
+Proof.
+  rewrite zlen_ser_addr. destruct a as [ip port|ip port|]; cbn [q_addr vd_addr]; try contradiction;
+    pose proof (zlen_nonneg ip); intros [H1 H2]; split; lia.
+Qed.
+
+Lemma q_transport m : q_msg m -> transport m = Some m.
+Proof.
+  intros Hq. apply codec_roundtrip.
+  - destruct m; cbn [q_msg vd_msg] in *; try contradiction; try exact I;
+      repeat match goal with H : _ /\ _ |- _ => destruct H end;
+      split; apply q_vd_addr; assumption.
+  - rewrite encode_msg_ser. destruct m; cbn [q_msg ser_msg] in *; try contradiction;
+      repeat match goal with H : _ /\ _ |- _ => destruct H end;
+      rewrite ?zlen_app, ?zlen_ser_data, ?zlen_nil;
+      repeat match goal with H : q_addr ?a |- _ => apply q_vd_addr in H; destruct H as [_ H] end;
+      try lia.
+Qed.
+
+Lemma wire_out_q f : q_msg f -> wire_out transport f = [f].
+Proof. intros H. unfold wire_out. now rewrite q_transport. Qed.
+
+Lemma flat_map_wire_q fs :
+  Forall q_msg fs -> flat_map (wire_out transport) fs = flat_map (wire_out ideal_wire) fs.
+Proof.
+  induction 1 as [|f fs Hf _ IH]; cbn [flat_map]; [reflexivity|]. now rewrite IH, wire_out_q.
+Qed.
+
+Definition qinv (s : sess) : Prop :=
+  forall c, (c < length (s_conns s))%nat -> q_addr (vc_l (conn_at s c)) /\ q_addr (vc_r (conn_at s c)).
+
+Lemma qinv_conns s s' : s_conns s' = s_conns s -> qinv s -> qinv s'.
+Proof. intros E Q c Hc. unfold conn_at. rewrite E in *. apply Q, Hc. Qed.
+
+Lemma qinv_upd s i v reg al nu :
+  qinv s -> vc_l v = vc_l (conn_at s i) -> vc_r v = vc_r (conn_at s i) ->
+  qinv (mkSess (upd (s_conns s) i v) reg al nu).
+Proof.
+  intros Q Hl Hr c Hc. cbn [s_conns] in Hc. rewrite upd_length in Hc.
+  rewrite conn_at_mk, nth_upd.
+  destruct (Nat.eqb i c && Nat.ltb c (length (s_conns s))) eqn:E; [|apply Q, Hc].
+  apply andb_true_iff in E. destruct E as [E _]. apply Nat.eqb_eq in E. subst i.
+  rewrite Hl, Hr. apply Q, Hc.
+Qed.
+
+Lemma qinv_teardown s : qinv s -> qinv (teardown s).
+Proof.
+  intros Q c Hc. rewrite teardown_length in Hc. rewrite teardown_conn.
+  destruct (existsb (Nat.eqb c) (s_reg s)); [cbn [close_vc vc_l vc_r]|]; apply Q, Hc.
+Qed.
+
+Lemma qinv_vc_read s c n : qinv s -> qinv (fst (vc_read s c n)).
+Proof.
+  intros Q. unfold vc_read. destruct (vc_buf (conn_at s c)); cbn [fst]; [exact Q|].
+  apply qinv_upd; [exact Q|reflexivity|reflexivity].
+Qed.
+
+Lemma serv_msg_q s m :
+  qinv s -> q_msg m ->
+  let '(s', _, fs, _) := serv_msg s m in qinv s' /\ Forall q_msg fs.
+Proof.
+  intros Q Hm. unfold serv_msg. destruct (negb (s_alive s)); [split; [exact Q|constructor]|].
+  destruct m as [l r|l r p|? ? ? ? ?|?|l r| |l r p]; cbn [q_msg] in Hm; try contradiction.
+  - split; [|constructor]. intros c Hc. cbn [s_conns] in Hc. rewrite app_length in Hc. cbn [length] in Hc.
+    rewrite conn_at_mk. destruct (Nat.eq_dec c (length (s_conns s))) as [->|Hne].
+    + rewrite app_nth2, Nat.sub_diag by lia. cbn [nth vc_l vc_r]. tauto.
+    + rewrite app_nth1 by lia. apply Q. lia.
+  - destruct (get_conn (s_conns s) (s_reg s) l r) as [i| |].
+    + destruct (vc_closed (conn_at s i)); (split; [|constructor]); [exact Q|].
+      apply qinv_upd; [exact Q|reflexivity|reflexivity].
+    + split; [exact Q|constructor].
+    + split; [apply qinv_teardown, Q|constructor].
+  - destruct (get_conn (s_conns s) (s_reg s) l r) as [i| |].
+    + split; [apply qinv_upd; [exact Q|reflexivity|reflexivity]|].
+      destruct (vc_closed (conn_at s i)) eqn:Ec; [constructor|].
+      constructor; [|constructor]. cbn [q_msg]. apply Q, closed_in_range, Ec.
+    + split; [exact Q|constructor].
+    + split; [apply qinv_teardown, Q|constructor].
+  - split; [exact Q|constructor].
+  - destruct (is_udp l && is_udp r); (split; [|constructor]); [|apply qinv_teardown, Q].
+    eapply qinv_conns; [|exact Q]. reflexivity.
+Qed.
+
+Lemma recv_msg_q s m :
+  qinv s -> q_msg m ->
+  recv_msg transport s m = recv_msg ideal_wire s m /\
+  let '(s', _, fs, _) := recv_msg ideal_wire s m in
+    qinv s' /\ flat_map (wire_out transport) fs = flat_map (wire_out ideal_wire) fs.
+Proof.
+  intros Q Hm. unfold recv_msg, ideal_wire. rewrite (q_transport m Hm). split; [reflexivity|].
+  pose proof (serv_msg_q s m Q Hm) as H. destruct (serv_msg s m) as [[[s' r] fs] sg].
+  destruct H as [H1 H2]. split; [exact H1|apply flat_map_wire_q, H2].
+Qed.
+
+Definition q_act (s : sess) (a : act) : Prop :=
+  match a with
+  | ASend m | APark _ _ m => q_msg m
+  | AWrite c p => (c < length (s_conns s))%nat /\ zlen p <= 65000
+  | AUdpW l r p => q_addr l /\ q_addr r /\ zlen p <= 65000
+  | ARead _ _ | AClose _ | ADisc => True
+  end.
+
+Lemma step_q s a :
+  qinv s -> q_act s a ->
+  step transport s a = step ideal_wire s a /\ qinv (fst (fst (step ideal_wire s a))).
+Proof.
+  intros Q Ha. destruct a as [m|c n|c n m|c p|c|l r p|]; cbn [step q_act] in *.
+  - destruct (recv_msg_q s m Q Ha) as [E H]. rewrite E.
+    destruct (recv_msg ideal_wire s m) as [[[s' r] fs] sg]. destruct H as [H1 H2]. rewrite H2.
+    split; [reflexivity|exact H1].
+  - pose proof (qinv_vc_read s c n Q) as H. destruct (vc_read s c n) as [s' r]. split; [reflexivity|exact H].
+  - assert (Himm : (let '(s1, r) := vc_read s c n in
+                    let '(s', _, fs, _) := recv_msg transport s1 m in (s', r, flat_map (wire_out transport) fs)) =
+                   (let '(s1, r) := vc_read s c n in
+                    let '(s', _, fs, _) := recv_msg ideal_wire s1 m in (s', r, flat_map (wire_out ideal_wire) fs)) /\
+                   qinv (fst (fst (let '(s1, r) := vc_read s c n in
+                    let '(s', _, fs, _) := recv_msg ideal_wire s1 m in (s', r, flat_map (wire_out ideal_wire) fs))))).
+    { pose proof (qinv_vc_read s c n Q) as Q1. destruct (vc_read s c n) as [s1 r1]. cbn [fst] in Q1.
+      destruct (recv_msg_q s1 m Q1 Ha) as [E H]. rewrite E.
+      destruct (recv_msg ideal_wire s1 m) as [[[s' r] fs] sg]. destruct H as [H1 H2]. rewrite H2.
+      split; [reflexivity|exact H1]. }
+    destruct (vc_buf (conn_at s c)) as [|b0 bs].
+    + destruct (vc_closed (conn_at s c)); [exact Himm|]. clear Himm.
+      destruct (recv_msg_q s m Q Ha) as [E H]. rewrite E.
+      destruct (recv_msg ideal_wire s m) as [[[s1 r1] fs] sg]. destruct H as [H1 H2]. rewrite H2.
+      pose proof (qinv_vc_read s1 c n H1) as H3. destruct (vc_read s1 c n) as [s' r].
+      split; [reflexivity|exact H3].
+    + destruct (vc_closed (conn_at s c)); exact Himm.
+  - destruct Ha as [Hc Hp]. destruct (s_alive s); [|split; [reflexivity|exact Q]].
+    split; [|exact Q]. rewrite wire_out_q; [reflexivity|]. cbn [q_msg].
+    destruct (Q c Hc) as [H1 H2]. tauto.
+  - destruct (vc_closed (conn_at s c)) eqn:Ec; [split; [reflexivity|exact Q]|].
+    split; [|apply qinv_upd; [exact Q|reflexivity|reflexivity]].
+    destruct (s_alive s); [|reflexivity]. rewrite wire_out_q; [reflexivity|].
+    cbn [q_msg]. apply Q, closed_in_range, Ec.
+  - destruct (s_alive s); [|split; [reflexivity|exact Q]].
+    split; [|exact Q]. rewrite wire_out_q; [reflexivity|]. exact Ha.
+  - split; [reflexivity|]. cbn [fst]. destruct (s_alive s); [apply qinv_teardown, Q|exact Q].
+Qed.
+
+Fixpoint q_run (s : sess) (acts : list act) : Prop :=
+  match acts with
+  | [] => True
+  | a :: rest => q_act s a /\ q_run (fst (fst (step ideal_wire s a))) rest
+  end.
+
+Lemma run_q acts : forall s, qinv s -> q_run s acts -> run transport s acts = run ideal_wire s acts.
+Proof.
+  induction acts as [|a acts IH]; intros s Q H; [reflexivity|]. destruct H as [Ha Hr]. cbn [run].
+  destruct (step_q s a Q Ha) as [E Q1]. rewrite E.
+  destruct (step ideal_wire s a) as [[s1 r] fs]. cbn [fst] in *. rewrite (IH s1 Q1 Hr). reflexivity.
+Qed.
+
+Lemma qinv0 : qinv sess0.
+Proof. intros c Hc. cbn in Hc. lia. Qed.
